@@ -143,4 +143,16 @@ PROPS = {
               "|x|<2) and demands |r-truth| <= 1e-12*sum|terms| and r==k at v=1; the executed branch is read from hook H2"),
         assumptions=["400-bit reference; every 211th event recomputed at 900 bits"],
     ),
+    "C11": dict(
+        kind=OFFLINE, oracle="c11.py",
+        rule=("cases = distinct (piece type, all piece numbers, knot) piecewise functions over Poly0-7 and Log<Poly0-8> "
+              "(1-40 pieces, duplicate breakpoints, knot inside / outside the first piece) for the value oracle, plus "
+              "distinct breakpoint lists for the online trace-probe monitor; oracle (400 bits): breakpoints preserved, "
+              "first piece through k0, adjacent pieces agree at every interior breakpoint (exact evaluation of the "
+              "returned numbers), every piece an antiderivative (coefficients and values), and the library's "
+              "evaluate(t) of integral/indefinite at up to 24 critical queries equals k0.y + the exact piecewise "
+              "integral within the accumulated bound; by-value and by-reference iterators compared bit for bit"),
+        assumptions=["f64::ln within one ulp", "evaluation bound K*u*sum|terms| with K=16(n+3) per library evaluation, "
+                     "accumulated over the pieces crossed; quartic log pieces add 1e-12*sum|terms| (C10)"],
+    ),
 }
